@@ -90,6 +90,41 @@ class CoefArr(object):
         return 'CoefArr(%r)' % (self.items,)
 
 
+class LazyCoefArr(CoefArr):
+    """`poly.coeffs` before anyone looked at its length: numpy has already stripped leading
+    zeros, which only matters to observers of the length / positions.  `.real`, `.imag` and
+    np.poly1d(...) of it are value-preserving and do not force the decision."""
+    def __init__(self, ip, poly, part=None):
+        self.ip = ip
+        self.poly = poly
+        self.part = part
+        self._items = None
+
+    def _map(self, x):
+        if self.part == 'real':
+            return sym.real_of(x)
+        if self.part == 'imag':
+            return sym.imag_of(x)
+        return x
+
+    def raw(self):
+        return [self._map(x) for x in self.poly.c]
+
+    @property
+    def items(self):
+        if self._items is None:
+            self._items = [self._map(x) for x in self.poly.strip(self.ip).c]
+        return self._items
+
+    @property
+    def real(self):
+        return LazyCoefArr(self.ip, self.poly, 'real') if self.part is None else (self if self.part == 'real' else CoefArr([0 for _ in self.items]))
+
+    @property
+    def imag(self):
+        return LazyCoefArr(self.ip, self.poly, 'imag') if self.part is None else CoefArr([0 for _ in self.items])
+
+
 def _is_conc_zero(x):
     if isinstance(x, (int, Fraction)):
         return x == 0
@@ -233,7 +268,7 @@ class Poly1d(object):
 
 def poly_getattr(ip, p, name):
     if name in ('coeffs', 'coefficients', 'c', 'coef'):
-        return CoefArr(p.strip(ip).c)
+        return LazyCoefArr(ip, p)
     if name == 'order' or name == 'o':
         return p.strip(ip).order
     if name == 'deriv':
@@ -542,6 +577,8 @@ def np_linspace(ip, args, kwargs):
 
 def np_poly1d(ip, args, kwargs):
     v = args[0]
+    if isinstance(v, LazyCoefArr) and v._items is None:
+        return Poly1d(v.raw())
     if isinstance(v, Poly1d):
         return Poly1d(v.c)
     if isinstance(v, NUM):
